@@ -133,6 +133,11 @@ namespace c10
         Ctx ctx{sink, {}, P.metric, P.metric != 0};
         ctx.pts.resize(N + Q);
         bool integerPts = P.metric != 0 || P.dist == 1;
+        // tight clusters far apart: the separation is drawn per history from 1e3 .. 1e9 (the cluster size stays ~1), so that the
+        // pivot distances are 3 .. 9 orders of magnitude larger than the distances the queries have to resolve
+        const double clusterSep = std::pow(10.0, 3 + (int)rng.ui(7));
+        const double clusterSize = rng.coin() ? 1.0 : 10.0;
+        if (P.dist == 3 && clusterSep >= 1e6) sink.count("c10_hist_clusters_1e6_or_more_apart");
         for (auto &p : ctx.pts)
         {
             switch (P.dist)
@@ -149,7 +154,7 @@ namespace c10
                 case 3:
                 {
                     int c = rng.ui(4);
-                    p = {c * 1000 + rng.uni(0, 1), c * 777 + rng.uni(0, 1), rng.uni(0, 1)};
+                    p = {c * clusterSep + rng.uni(0, clusterSize), c * 0.777 * clusterSep + rng.uni(0, clusterSize), rng.uni(0, clusterSize)};
                     break;
                 }
                 default:
@@ -174,6 +179,7 @@ namespace c10
         int next = 0;
         long pivotRemovals = 0, cacheFlush = 0;
         std::vector<int> stale;  // the previous query's answer (result vectors are reused by callers)
+        bool forceNearest = false;
         const long violBefore = sink.violTotal();
         for (int op = 0; op < P.nops; ++op)
         {
@@ -181,6 +187,35 @@ namespace c10
             if (sink.violTotal() != violBefore) break;
             int r = rng.ui(100);
             sink.count("c10_ops");
+            // the operation after a shrink (below) is a nearest() query: a stale cursor / cache shows on the first query after it
+            if (forceNearest)
+            {
+                r = 65;
+                forceNearest = false;
+            }
+            // now and then the structure is shrunk to a handful of elements in one go (one remove() per element, no clear()),
+            // after it has been larger and has answered queries
+            if (r == 63 && model.size() > 14 && rng.coin())
+            {
+                size_t target = 3 + rng.ui(10);
+                while (model.size() > target)
+                {
+                    size_t i = rng.ui(model.size());
+                    int v = model[i];
+                    if (!nn.remove(v))
+                    {
+                        sink.viol("C10:remove-present-false:" + S, detail("remove(present) returned false"));
+                        break;
+                    }
+                    model[i] = model.back();
+                    model.pop_back();
+                    member[v] = 0;
+                    sink.count("c10_remove");
+                }
+                sink.count("c10_shrink_to_handful");
+                forceNearest = true;
+                continue;
+            }
             if ((r < 32 || model.empty()) && next < N)
             {
                 nn.add(next);
